@@ -41,31 +41,16 @@ class Modes:
             elif c.kind == "bool":
                 # `mode == Mode::Clean` / `mode != Mode::Clean`
                 for leaf in c.src:
-                    if leaf.kind != "call":
-                        continue
-                    nm = C.callee_name(leaf.data)
-                    if not (nm.endswith("as std::cmp::PartialEq>::eq") or nm.endswith("as std::cmp::PartialEq>::ne")):
-                        continue
-                    if not any(a in nm for a in self.mode_adts):
-                        continue
-                    var = None
-                    for a in leaf.data["args"]:
-                        for l2 in C.trace(body, a):
-                            if l2.kind == "const":
-                                v = C.op_const(l2.data) or ""
-                                for m in self.all:
-                                    if v.endswith("::" + m):
-                                        var = m
-                            if l2.kind == "aggregate" and l2.data["agg"]["k"] == "adt" and l2.data["agg"]["adt"] in self.mode_adts:
-                                var = l2.data["agg"]["variant"]
-                    if var is None:
-                        continue
-                    is_ne = nm.endswith("::ne")
-                    for val, eid in C.bool_edges(body, bb).items():
-                        truth = (not val) if leaf.neg else val
-                        if is_ne:
-                            truth = not truth
-                        r[eid] = {var} if truth else set(self.all - {var})
+                    for adt in self.mode_adts:
+                        res = C.eq_variant_test(body, leaf, adt, self.all)
+                        if res is None:
+                            continue
+                        var, is_ne = res
+                        for val, eid in C.bool_edges(body, bb).items():
+                            truth = (not val) if leaf.neg else val
+                            if is_ne:
+                                truth = not truth
+                            r[eid] = {var} if truth else set(self.all - {var})
         body._mode_edges = r
         return r
 
@@ -130,7 +115,10 @@ class Modes:
             return loc
         cs = self.callers().get(body.name)
         if not cs:
-            res = loc
+            # no in-crate mention: an API / trait-impl root runs in every mode; a private inherent fn is dead code
+            vis = body.j.get("vis", "Public")
+            dead = body.kind != "Closure" and vis.startswith("Restricted") and not body.j.get("impl_trait")
+            res = frozenset() if dead else loc
         else:
             pg = self.param_guards(body, bb)
             acc = set()
